@@ -66,6 +66,11 @@ chk("C17", "treemc", "exploration",
     "The worker calls the exported extern \"C\" symbols of the rlib directly (the ABI a C caller uses); agreement of include/pathrs.h with those symbols is C18 (not claimed).",
     "exhaustive enumeration of a finite argument space", "DESIGN.md 4/C17")
 
+chk("C16", "loomcheck+sysmc", "model_checking",
+    "loom explores every interleaving (bounded preemptions) of small multi-threaded programs of failing C-API calls and pathrs_errorinfo calls against the UNMODIFIED sources (std::sync/thread, once_cell and rand re-targeted to loom-backed shims by dependency renaming), with scripted random words forcing id collisions; each execution's call/return history is checked for linearizability against a plain map. In addition the errno of every error kind is checked through the C API on both backends, and safety violations produced by injected EAGAIN storms and by attacker schedules must surface as EXDEV with an id below -4095 consumed exactly once.",
+    "Trusts loom's scheduling model (sequentially consistent switching at synchronisation points) and that the error table is only reachable through its Mutex; small programs (2-3 threads, <=3 ops).",
+    "exhaustive bounded-preemption interleaving exploration (loom) with a linearizability oracle + enumerated error kinds", "DESIGN.md 4/C16")
+
 not_applicable = [
     {"property_id": "C18", "reason": "relates static artefacts (exported symbols, header, Go/Python binding declarations); there is no behaviour, schedule or state space to enumerate - deciding it is translation validation / static comparison, a different family (DESIGN.md section 5)"},
 ]
@@ -75,7 +80,7 @@ for pid in sorted(todo):
     not_applicable.append({"property_id": pid, "reason": "check not built yet in this snapshot of /verif (planned, see DESIGN.md); not claimed until its check exists"})
 manifest = {
     "version": 1,
-    "setup_cmd": "cd /verif/harness && CARGO_NET_OFFLINE=true cargo build --release --offline",
+    "setup_cmd": "cd /verif/harness && CARGO_NET_OFFLINE=true cargo build --release --offline && cd /verif/loomcheck && CARGO_NET_OFFLINE=true cargo build --release --offline",
     "hooks": {"guard": "none", "enable": "no hooks in /repo: the syscall boundary is observed and perturbed from outside (ptrace, seccomp), see DESIGN.md 3.5",
               "baseline_off_cmd": BASE, "source_commits": [], "add_only": True},
     "engines": [
